@@ -219,7 +219,20 @@ def _run_program(prog, problems, s, sched_ref, f, con, twin, W, H, kind, auto, t
                     con.print(marker_renderable(op[1], op[2], styled))
                 elif k == "export":
                     # a clearing export from a thread: together with the final export it must account for every recorded line exactly once
-                    if op[1] == "html-keep":
+                    if op[1] in ("save-text", "save-html"):
+                        # the on-disk variants: what they saved is what a clearing export would have returned
+                        import os as _os
+                        import tempfile as _tempfile
+
+                        fd, path = _tempfile.mkstemp(prefix="vp_c11_")
+                        _os.close(fd)
+                        try:
+                            (con.save_text if op[1] == "save-text" else con.save_html)(path)
+                            with open(path, encoding="utf-8") as fh:
+                                exports.append(fh.read())
+                        finally:
+                            _os.unlink(path)
+                    elif op[1] == "html-keep":
                         con.export_html(clear=False)   # an export that keeps the record: the record must be as it was, in the file's order
                     else:
                         exports.append(con.export_html(clear=True) if op[1] == "html" else con.export_text(clear=True))
@@ -406,6 +419,7 @@ def _run_program(prog, problems, s, sched_ref, f, con, twin, W, H, kind, auto, t
 PLAIN_PROGRAMS = [
     {"record": True, "threads": [[["print", 14, 1], ["print", 15, 1]], [["export", "html"], ["print", 16, 1]], [["export", "text"]]]},
     {"record": True, "threads": [[["print", 17, 1], ["print", 18, 1]], [["export", "html-keep"], ["print", 19, 1]]]},
+    {"record": True, "threads": [[["print", 20, 1], ["print", 21, 1]], [["export", "save-text"], ["print", 22, 1]], [["export", "save-html"]]]},
     {"record": True, "threads": [[["print", 1, 1], ["print", 2, 2]], [["print", 3, 1], ["log", 4]]]},
     {"record": False, "threads": [[["capture", [5, 6]], ["print", 7, 1]], [["print", 8, 2], ["capture", [9]]]]},
     {"record": True, "threads": [[["log", 10]], [["print", 11, 3]], [["print", 12, 1], ["print", 13, 1]]]},
@@ -564,7 +578,7 @@ class Generated(Part):
                             ms.append(mid[0])
                         ops.append(["capture", ms])
                     elif k == "export":
-                        ops.append(["export", draw(st.sampled_from(["html", "text", "html-keep"]))])
+                        ops.append(["export", draw(st.sampled_from(["html", "text", "html-keep", "save-text", "save-html"]))])
                     elif k == "update":
                         ops.append(["update", ["u%d" % i for i in range(draw(st.integers(0, 4)))], draw(st.booleans())])
                     elif k == "advance":
